@@ -11,14 +11,14 @@ rules are bisected) - otherwise it is the executor's / binder's."""
 import random
 import re
 
-from common import Report, Violation, parallel_map, h, run_sentinels
+from common import Report, Violation, parallel_map, h, run_sentinels, attribute_rules
 from gen import gen_schema, setup_statements, QueryGen
 from sqlcase import RL, Lite, DISK_LAYOUTS, ms, ordered_equal
 
 TYPES = ("INT", "BIGINT", "BOOLEAN", "VARCHAR")
 # constructs on which both dialects define the same answer
 FEATURES = dict(full_join=True, not_in_sub=False, like=False, bool_col_cond=False, offset_no_limit=False, case_no_else=True,
-                corr_in_sub=False, null_lit=True, scalar_sub_where=False, cross=True, derived_limit=True, cast=True, concat=True, scalar_sub=True,
+                corr_in_sub=False, null_lit=True, cross=True, derived_limit=True, cast=True, concat=True, scalar_sub=True,
                 mixed_int=True, group_expr=False)
 
 
@@ -121,7 +121,7 @@ def run_case(args):
             if unopt_agrees or (culprits and not un["ok"]):
                 # commutativity / associativity rules only expose the match of the real culprit
                 core = [c for c in culprits if not c.endswith(("-comm", "-assoc"))] or culprits
-                sig = "optimizer:" + ("+".join(core[:3]) if core else "unattributed")
+                sig = attribute_rules(core, "C02", "optimizer:") or ("optimizer:" + ("+".join(core[:3]) if core else "unattributed"))
             else:
                 feats = sorted(t for t in q.tags if t.startswith(("join:", "agg:", "sub:")) or t in ("distinct", "having", "case", "div", "between", "in_list", "concat", "cast", "limit", "offset", "derived_limit", "cte"))
                 sig = "semantics:" + ",".join(feats[:6])
